@@ -9,7 +9,7 @@ import gen_checker as G
 
 PROP = "C05"
 CONE = sorted(set(["Model/Base.v", "Gen/Generated.v", "Model/Bind.v", "Spec/C05Check.v", "Proofs/DictLemmas.v",
-                   "Proofs/BindRefine.v", "Proofs/BindAgree.v", "Props/C05.v"] + K.MODEL_FILES))
+                   "Proofs/BindRefine.v", "Proofs/BindAgree.v", "Proofs/CheckerTypeError.v", "Props/C05.v"] + K.MODEL_FILES))
 RULE_C = ("whole calls (checker-cluster cases as for C01: all callable kinds x sync/async, chains of classes, error "
           "factories whose parameters partly have default values): whatever a condition, a capture or an error factory "
           "receives under the name of a parameter is the object the body receives (spec_C05_call).")
